@@ -82,12 +82,16 @@ def h_split_once(ex, path, vals, args):
 
 
 def h_range_new(ex, path, vals, args):
-    return ("RANGE", args[0], args[1])
+    return ("RANGE", args[0], args[1], True)             # RangeInclusive::new(a, b): a ..= b
 
 
 def h_step_by(ex, path, vals, args):
     r = args[0]
-    return ("STEPBY", r[1], r[2], args[1])
+    if isinstance(r, tuple) and r and r[0] == "RANGE":
+        return ("STEPBY", r[1], r[2], args[1], r[3])
+    if isinstance(r, tuple) and r and r[0] == "TUPLE" and len(r[1]) == 2 and all(S.is_bv(x) for x in r[1]):
+        return ("STEPBY", r[1][0], r[1][1], args[1], False)   # Range { start, end }: a .. b
+    raise S.Unsupported("step_by on %r" % (r,))
 
 
 def h_collect(ex, path, vals, args):
@@ -101,8 +105,8 @@ OPAQUE = (
     (r"^<std::result::Result<Vec<u32>, error::Error> as FromResidual<std::result::Result<Infallible, error::Error>>>::from_residual$", "from_residual", h_from_residual),
     (r"^core::str::<impl str>::split_once::<char>$", "split_once", h_split_once),
     (r"^std::ops::RangeInclusive::<u32>::new$", "range_new", h_range_new),
-    (r"^<std::ops::RangeInclusive<u32> as Iterator>::step_by$", "step_by", h_step_by),
-    (r"^<StepBy<std::ops::RangeInclusive<u32>> as Iterator>::collect::<Vec<u32>>$", "collect", h_collect),
+    (r"^<std::ops::Range(?:Inclusive)?<u32> as Iterator>::step_by$", "step_by", h_step_by),
+    (r"^<StepBy<std::ops::Range(?:Inclusive)?<u32>> as Iterator>::collect::<Vec<u32>>$", "collect", h_collect),
     (r"^<u32 as ToString>::to_string$", "to_string", "unit"),
     (r"^<str as ToString>::to_string$", "to_string", "unit"),
     (r"^error::Error::new::<String, String>$", "error_new", "unit"),
@@ -213,13 +217,19 @@ def main():
                 vec = res[2][0][0]
                 if not (vec[0] == "VECOF" and vec[1][0] == "STEPBY"):
                     raise S.Unsupported("Ok payload %r" % (vec,))
-                _, a, b, st = vec[1]
+                _, a, b, st, inclusive = vec[1]
                 end_t = "end_text" if "end_text" in used else "rest_text"
                 exp_end = PARSED[end_t][1]
                 exp_stride = z3.ZeroExt(32, PARSED["stride_text"][1]) if "stride_text" in used else z3.BitVecVal(1, 64)
-                post = z3.And(all_ok, a == vs, b == exp_end, st == exp_stride, st != 0, z3.ULE(a, b),
+                # set semantics of the collected iterator at an arbitrary probe id x (whatever range type is used):
+                # x is produced iff a <= x (<= | <) b and (x - a) is a multiple of the step
+                x = z3.BitVec("probe_id", 32)
+                st32 = z3.Extract(31, 0, st)
+                produced = z3.And(z3.ULE(a, x), z3.ULE(x, b) if inclusive else z3.ULT(x, b), z3.URem(x - a, st32) == 0)
+                wanted = z3.And(z3.ULE(vs, x), z3.ULE(x, exp_end), z3.URem(x - vs, z3.Extract(31, 0, exp_stride)) == 0)
+                post = z3.And(all_ok, st != 0, z3.ULE(st, z3.BitVecVal(0xFFFFFFFF, 64)), exp_stride != 0, z3.ULE(vs, exp_end), produced == wanted,
                               (has_stride == 1) == z3.BoolVal("stride_text" in used))
-                what = "R3 Ok path: the progression is start..=end step stride of the right texts, stride != 0, start <= end"
+                what = "R3 Ok path: the collected ids are exactly start, start+stride, .. <= end of the right texts (arbitrary probe id), stride != 0, start <= end"
             else:
                 seen.add("err")
                 stride_v = PARSED["stride_text"][1] if "stride_text" in used else z3.BitVecVal(1, 32)
@@ -230,8 +240,13 @@ def main():
                 else:
                     post = bad_numbers
                 what = "R2 Err path: a number failed to parse, or stride == 0, or start > end"
-            small = [z3.ULE(PARSED[t][1], 64) for t in used]           # replay-friendly assignment first
+            small = [z3.ULE(PARSED[t][1], 64) for t in used]           # replay-friendly assignments first
+            end_t2 = "end_text" if "end_text" in used else "rest_text"
+            short = [z3.ULE(PARSED[end_t2][1] - vs, 64), z3.ULE(vs, PARSED[end_t2][1])] if end_t2 in used else []
             r, m, s = check(pa.pc + [z3.Not(post), all_ok] + small)
+            if r == z3.unsat and short:
+                r, m, s2 = check(pa.pc + [z3.Not(post), all_ok] + short)      # a short progression anywhere in the u32 range
+                s += s2
             if r == z3.unsat:
                 r, m, s2 = check(pa.pc + [z3.Not(post)])
                 s += s2
